@@ -349,23 +349,37 @@ def _substr(t, lo, n):
     return z3.SubString(t, z3.simplify(lo), z3.simplify(n))
 
 
-def _concat(a, b):
-    """Concatenation; adjacent extractions of the same string are merged when the path condition proves
-    the side conditions:  substr(s,a1,n1) ++ substr(s,a1+n1,n2) = substr(s,a1,n1+n2)
-    if 0<=a1, 0<=n1, 0<=n2, a1+n1<=len(s)."""
-    if _is_empty_lit(a):
-        return b
-    if _is_empty_lit(b):
-        return a
+def _merge_extracts(a, b):
+    """substr(s,a1,n1) ++ substr(s,a1+n1,n2) = substr(s,a1,n1+n2) if 0<=a1, 0<=n1, 0<=n2, a1+n1<=len(s)
+    (and the whole of s when that covers it); None when the side conditions are not provable."""
     if _is_extract(a) and _is_extract(b):
         s1, a1, n1 = a.children()
         s2, a2, n2 = b.children()
         if s1.eq(s2) and _prove(a2 == a1 + n1) and _prove(z3.And(a1 >= 0, n1 >= 0, n2 >= 0, a1 + n1 <= z3.Length(s1))):
+            if _prove(z3.And(a1 == 0, n1 + n2 >= z3.Length(s1))):
+                return s1
             return z3.SubString(s1, a1, z3.simplify(n1 + n2))
-    if _is_extract(b):
-        # whole-string prefix followed by the adjacent extraction:  s ++ ... never matches; but
-        # substr(s,0,len(s)) is normalised to s by z3's simplifier, handle  x ++ substr(...) only above.
-        pass
+    return None
+
+
+def _concat(a, b):
+    """Concatenation; adjacent extractions of the same string are merged when the path condition proves
+    the side conditions (also below one level of left-nested concatenation)."""
+    if _is_empty_lit(a):
+        return b
+    if _is_empty_lit(b):
+        return a
+    m = _merge_extracts(a, b)
+    if m is not None:
+        return m
+    if z3.is_app(a) and a.decl().kind() == z3.Z3_OP_SEQ_CONCAT and _is_extract(b):
+        ch = a.children()
+        m = _merge_extracts(ch[-1], b)
+        if m is not None:
+            head = ch[0]
+            for c in ch[1:-1]:
+                head = z3.Concat(head, c)
+            return _concat(head, m)
     return z3.Concat(a, b)
 
 
